@@ -47,7 +47,10 @@ def jv(v):
     raise ValueError("config value %r" % (v,))
 
 
-def run_cases(progs, R=None, label="scan", plugins=("Plugins.All", "all_plugins")):
+ERRORS_ONLY = ("(fun a b => list_eqb (fun x y => pstr_eqb (fst x) (fst y) && exn_eqb (snd x) (snd y)) (o_errors a) (o_errors b))")
+
+
+def run_cases(progs, R=None, label="scan", plugins=("Plugins.All", "all_plugins"), eq="scan_out_eqb"):
     """progs: list of dicts {src: bytes|str, include: [...]|None, exclude: [...]|None, ignore_nosec: bool}.
     Returns (outs, mismatches) where outs[i] are implementation observables and mismatches is a list of
     (i, model_output_text)."""
@@ -100,7 +103,7 @@ def run_cases(progs, R=None, label="scan", plugins=("Plugins.All", "all_plugins"
         chunk = idx[s:s + SHARD]
         body = hdr + "Definition cases : list (scase * scan_out) := %s.\n" % L.lst(
             [cases[i] for i in chunk], "scase * scan_out")
-        body += "Definition mm := mismatches run1 scan_out_eqb cases 0%N.\n"
+        body += "Definition mm := mismatches run1 %s cases 0%%N.\n" % eq
         body += "Eval vm_compute in (map fst mm).\nEval vm_compute in (map snd (firstn 3 mm)).\n"
         files.append(("%s_%d" % (label, s), body))
     mism = []
